@@ -6,4 +6,10 @@ CLAIMS = {
  "C01": {"technique": "property-based differential testing (Hypothesis) against an independent RFC 6979/SEC1 ECDSA reference; mutation catalogue incl. constructed R.x>=n class",
          "text": "Generated (secret,digest) pairs and mutated (key,digest,r,s) tuples are compared with an independent ECDSA/RFC 6979/DER reference; low-S boundary window reached by steering the nonce. Exploration: thousands of cases per run, all mutation classes hit every run.",
          "note": NOTE},
+ "C02": {"technique": "property-based differential testing (Hypothesis) against an independent BIP340 reference; mutation catalogue over 64-byte signatures; call-history check of the tag cache",
+         "text": "Signatures for generated (secret,msg,aux) are compared byte-for-byte with an independent BIP340 implementation (all key/nonce parity classes every run); verification is compared with the reference verifier over a mutation catalogue (bit flips, range violations, non-curve R/pk, negated nonce). Exploration.",
+         "note": NOTE},
+ "C03": {"technique": "exhaustive enumeration of small prime fields/curves + property-based differential testing against an independent Jacobian secp256k1 implementation and SEC1/BIP340 decoders",
+         "text": "Field and group axioms are checked EXHAUSTIVELY for every prime 5..61 (all pairs, all triples for p<=31, incl. order-2 points and infinity); secp256k1 operations and algebraic laws are compared with an independent implementation on generated scalars incl. 0, n, negatives, >2^256; encodings are decided by an independent decoder over a catalogue of invalid candidates.",
+         "note": NOTE},
 }
